@@ -185,7 +185,10 @@ class Harness:
       def set_round_num(self, r):
         return sampler.set_round_num(r)
     cfg = self.cfg
-    config = fe.FederatedExperimentConfig(root_dir=self.workdir, num_rounds=cfg['num_rounds'],
+    # the same directory may be spelled with a trailing slash or a redundant './' component
+    root = {'slash': self.workdir + '/', 'dot': os.path.join(os.path.dirname(self.workdir), '.', os.path.basename(self.workdir))}.get(
+        cfg.get('root_spelling'), self.workdir)
+    config = fe.FederatedExperimentConfig(root_dir=root, num_rounds=cfg['num_rounds'],
                                           checkpoint_frequency=cfg['ckpt'], num_checkpoints_to_keep=cfg['keep'],
                                           eval_frequency=cfg['eval'])
     periodic = {'p': self.HashEval('periodic'), 't': self.TrainEval()} if cfg['eval'] else None
@@ -434,6 +437,9 @@ def plan(ctx):
   else:
     # one real FedAvg (momentum server optimizer) experiment; the caller's init_state object is reused by every re-run
     cs += [{'cfg': {'num_rounds': 2, 'ckpt': 2, 'keep': 1, 'eval': 0}, 'algo': 'fedavg', 'all_prefixes_depth': -1}]
+  # a longer experiment (thorough 10, quick 6 rounds, checkpoints every 3rd round, evaluation every 4th): representative torn-write prefixes only
+  cs += [{'cfg': {'num_rounds': 10 if th else 6, 'ckpt': 3, 'keep': 2, 'eval': 4}, 'all_prefixes_depth': -1}]
+  cs += [{'cfg': {'num_rounds': 3, 'ckpt': 1, 'keep': 1, 'eval': 0, 'root_spelling': sp}, 'all_prefixes_depth': -1} for sp in ('slash', 'dot')]
   # periodic evaluation on sampled clients through the sampler object that also drives training
   cs += [{'cfg': {'num_rounds': nr, 'ckpt': 1, 'keep': 1, 'eval': ev, 'shared_eval': True}, 'algo': 'fedavg', 'all_prefixes_depth': -1}
          for nr, ev in (((4, 3), (3, 2), (4, 2)) if th else ((3, 2),))]
